@@ -267,13 +267,41 @@ CLAIMED = {
              'expression bodies are opaque in the model. Three finding classes are open known findings.',
         technique='Lean 4 proofs over describe/load + name-resolution model, differential replay of real DESCRIBE text through the bridge',
     ),
+
+    'C02': dict(
+        category='proof',
+        text='Lean theorems: the real matching algorithm (delta_objects, modelled line by line) partitions old/new objects '
+             'into created/altered/identical/deleted for EVERY similarity function, tie-break, rename table and '
+             'inheritance order (diff_partition, diff_matching, diff_thresholds); on the flat schema algebra '
+             'applyAll A (diff sim A B) = B (C02_apply_diff) and any needs-respecting order works (C02_any_order, via C20). '
+             'Tie: real delta_objects on synthetic objects vs the model (400 matrices/quick); generated SDL pairs '
+             'through the real START MIGRATION/POPULATE/COMMIT path, replayed as text (stored script and '
+             'ddl_text_from_delta), compared with the target by delta_schemas both ways + structural dump; dedicated '
+             'rebase streams.',
+        design_ref='§4 C02, §7',
+        note='The flat algebra abstracts the real apply engine (per-class compare, field inheritance merging, expression '
+             'normalisation are reached only by the differential runs). C02_text not proved. SimSound is an explicit '
+             'hypothesis. 13 root-cause classes of real migration residues are open known findings.',
+        technique='Lean 4 proofs over diff planner + schema algebra, differential on real delta_objects and real migrations through the bridge',
+    ),
+    'C10': dict(
+        category='proof',
+        text='Lean theorems by induction from C02: folding migrate over any chain of valid schemas from ∅ ends in the last '
+             'schema, independent of the similarity functions used on the way (C10_chain, C10_path_independent, '
+             'C10_confluence), migrating to ∅ leaves nothing (C10_to_empty). Tie: generated chains S1…Sn through the '
+             'real migration path, each step compared with the directly loaded Si and with ∅→Si; final migration to the '
+             'empty schema must leave no user object.',
+        design_ref='§4 C02/C10, §7',
+        note='Same abstraction and known findings as C02 (chain variants of the residues).',
+        technique='Lean 4 induction on top of C02 + differential on real migration chains',
+    ),
 }
 
 NOT_YET = 'check not built yet in this round (planned in DESIGN.md §4); not claimed until its theorem and tie exist'
 
 
 # packages delivered but not yet green on the unchanged tree (being reworked): not claimed until they are
-PENDING = {'C13', 'C02', 'C10'}
+PENDING = set()
 
 
 def main():
